@@ -128,7 +128,8 @@ type gen struct {
 	ups    []upObs
 	upsets []upSetObs
 
-	plain bool // the expression being placed may yield a boolean: no arithmetic around it
+	onPlace func() // name resolution of the expression being placed, run where it stands in source order
+	plain   bool   // the expression being placed may yield a boolean: no arithmetic around it
 
 	classes map[string]bool
 	kf      map[string]bool
@@ -369,6 +370,13 @@ func atom(e *Expr) *Expr {
 	return e
 }
 
+func (g *gen) placed() {
+	if g.onPlace != nil {
+		g.onPlace()
+		g.onPlace = nil
+	}
+}
+
 func startsWithParen(e *Expr) bool {
 	for e != nil {
 		switch e.K {
@@ -464,6 +472,9 @@ func (g *gen) shape(fx *fctx, e *Expr, isCall, isFault, noConcat bool, depth int
 	if depth >= 3 && pick >= 9 {
 		pick = 1
 	}
+	if pick != 10 && pick != 12 {
+		g.placed() // in shapes 10 and 12 filler code precedes e in the source
+	}
 	W := func() *Expr {
 		if g.r.Chance(50) {
 			return e
@@ -553,14 +564,18 @@ func (g *gen) shape(fx *fctx, e *Expr, isCall, isFault, noConcat bool, depth int
 		}
 		return []*Stmt{s}
 	case 10:
-		s := &Stmt{K: "if", Conds: []*Expr{lit("false"), g.wrapCond(e)}, Blocks: [][]*Stmt{g.fillerBlockBody(fx, depth), g.fillerBlockBody(fx, depth)}}
+		b1 := g.fillerBlockBody(fx, depth)
+		g.placed()
+		s := &Stmt{K: "if", Conds: []*Expr{lit("false"), g.wrapCond(e)}, Blocks: [][]*Stmt{b1, g.fillerBlockBody(fx, depth)}}
 		return []*Stmt{s}
 	case 11:
 		body := g.fillerBlockBody(fx, depth)
 		body = append(body, &Stmt{K: "break"})
 		return []*Stmt{{K: "while", Exprs: []*Expr{g.wrapCond(e)}, Body: body}}
 	case 12:
-		return []*Stmt{{K: "repeat", Exprs: []*Expr{g.wrapCond(e)}, Body: g.fillerBlockBody(fx, depth)}}
+		rb := g.fillerBlockBody(fx, depth)
+		g.placed()
+		return []*Stmt{{K: "repeat", Exprs: []*Expr{g.wrapCond(e)}, Body: rb}}
 	case 13:
 		s := &Stmt{K: "numfor", Names: []string{g.lname()}}
 		one := func() *Expr { return num(1) }
@@ -872,6 +887,7 @@ type chainPlan struct {
 // callee: how the caller reaches a chain function that has been defined.
 type callee struct {
 	mk    func(c2 *fctx) *Expr // the expression that enters it (placed once, by the caller c2)
+	res   func(c2 *fctx)       // resolves the names the expression mentions: call where it stands in the source
 	store bool                 // the expression is the left side of an assignment (__newindex)
 	fn    *Func
 }
@@ -1011,7 +1027,7 @@ func (g *gen) defineChain(fx *fctx, pl chainPlan, i int, underPcall, nested bool
 			defs = append(defs, &Stmt{K: "local", Names: []string{nm}, Exprs: []*Expr{fexp()}, Vals: []*int{nil}})
 			fx.declare(Binding{nm, nil})
 		}
-		ce.mk = func(c2 *fctx) *Expr { c2.resolve(nm); cx.callerFn = c2; return callExpr }
+		ce.res = func(c2 *fctx) { c2.resolve(nm) }
 	case "global", "globalstmt":
 		nm := g.fresh("GF")
 		enter(call(name(nm), args...))
@@ -1070,12 +1086,10 @@ func (g *gen) defineChain(fx *fctx, pl chainPlan, i int, underPcall, nested bool
 		mt := &Expr{K: "table", Args: []*Expr{name(hn)}, Keys: []string{"__" + kind[3:]}}
 		defs = append(defs, &Stmt{K: "local", Names: []string{mn}, Exprs: []*Expr{call(name("setmetatable"), &Expr{K: "table"}, mt)}, Vals: []*int{nil}})
 		fx.declare(Binding{mn, nil})
-		ce.mk = func(c2 *fctx) *Expr {
+		ce.res = func(c2 *fctx) {
 			for k := 0; k < nref; k++ {
 				c2.resolve(mn)
 			}
-			cx.callerFn = c2
-			return callExpr
 		}
 	}
 	return defs, ce
@@ -1085,8 +1099,14 @@ func (g *gen) defineChain(fx *fctx, pl chainPlan, i int, underPcall, nested bool
 func (g *gen) chainAction(fx *fctx, a action, depth int) []*Stmt {
 	pre, ce := a.Next(fx)
 	e := ce.mk(fx)
+	g.onPlace = func() {
+		if ce.res != nil {
+			ce.res(fx)
+		}
+	}
 	var out []*Stmt
 	if ce.store {
+		g.placed()
 		g.size++
 		out = []*Stmt{{K: "assign", Lhs: []*Expr{e}, Exprs: []*Expr{num(1)}}}
 	} else {
@@ -1108,6 +1128,9 @@ func (g *gen) scenario(fx *fctx, depth int) []*Stmt {
 	}
 	defs, ce := g.defineChain(fx, pl, 1, true, false)
 	e := ce.mk(fx)
+	if ce.res != nil {
+		ce.res(fx)
+	}
 	pc := call(name("pcall"), append([]*Expr{e.A}, e.Args...)...)
 	g.size++
 	return append(defs, &Stmt{K: "call", Exprs: []*Expr{call(name("R"), num(k), pc)}})
